@@ -125,3 +125,22 @@ Definition all_moves (p : position) : list rmove :=
 Definition scratch_hash (basis : list N) (p : position) : N :=
   fold_left (fun acc i => N.lxor acc (hash_at (hash_sq basis) (Height p) (Stacks p) (N.of_nat i)))
             (seq 0 (length (Height p))) fnvBasis.
+
+(* ---- game.go WinDetails, ptn.ResultFromGame ---- *)
+Record windetails := { wd_over : bool; wd_road : bool; wd_winner : gcolor; wd_wflats : N; wd_bflats : N }.
+Definition win_details (p : position) : option windetails :=
+  match analyze p, game_over p with
+  | Some (wg, bg), Some (o, c) =>
+    let '(w, b) := count_flats p in
+    Some {| wd_over := o; wd_road := match has_road p wg bg with Some _ => true | None => false end;
+            wd_winner := c; wd_wflats := w; wd_bflats := b |}
+  | _, _ => None
+  end.
+Inductive result_text := RDraw | RWhite (road : bool) | RBlack (road : bool).      (* "1/2-1/2" "R-0"/"F-0" "0-R"/"0-F" *)
+Definition result_from_game (d : windetails) : res result_text :=
+  if negb (wd_over d) then Panic                                       (* panic("game is not over") *)
+  else match wd_winner d with
+       | GNone => Ok RDraw
+       | GWhite => Ok (RWhite (wd_road d))
+       | GBlack => Ok (RBlack (wd_road d))
+       end.
